@@ -91,6 +91,11 @@ def Tx.rollback (F : Facts) (t : Tx K V) : Tx K V :=
 def Tx.commit (F : Facts) (t : Tx K V) (ok : Bool) : Tx K V :=
   if ok || !F.commitKeepsSnapshotOnError then { t with snapshot := none } else t
 
+/-- `sqlite.VirtualTable.Sync` on a READ-ONLY table: nothing is stored; with the repair the
+    table's transaction ends there (SQLite calls xCommit next, which has nothing to do) -/
+def Tx.syncRO (F : Facts) (t : Tx K V) : Tx K V :=
+  if F.roSyncEndsTransaction then t.rollback F else t
+
 /-- `Vacuum` on a table whose live tree is clean: the live tree becomes the vacuumed one
     (`vac`), the storage of the tree from before is deleted, and — when the repair is in place
     (`vacuumRepointsSnapshot`) — so does the snapshot of an open transaction.  `gone t` says that
